@@ -40,6 +40,15 @@ WORKERS = {"quick": 1, "thorough": 14}
 def gen_cases(ctx):
     rng = ctx.rng
     names = ["disjunctive", "agent_task", "with_jobs", "complete", "custom"]
+    for i in range(ctx.scale(40, 6000)):
+        # the updater as met inside the multi-instance environment: default configuration, after
+        # another environment with another kind of graph was created in the same process;
+        # a generator that hands out the same instance objects again and again
+        yield {"kind": "multi_env", "seed": rng.randrange(2**31), "instance": {"cls": "generated"},
+               "filter": None, "policy": "random_available",
+               "first_builder": rng.choice(["disjunctive", "agent_task"]),
+               "builder": rng.choice(["agent_task", "with_jobs", "complete"]),
+               "cycling_generator": i % 2 == 1}
     for i in range(ctx.scale(2, 56)):
         # more than 256 operations in one job / on one machine (counters must not wrap around)
         n = rng.choice([257, 260, 300, 513 if ctx.tier == "thorough" else 258])
@@ -101,7 +110,103 @@ def custom_graph(instance, rng):
     return g
 
 
+def judge_state(ctx, g, r, now, w, prev_removed):
+    """The C17 clauses on one state (graph g, reference r, clock `now`); returns the removed set."""
+    N = r.num_ops
+    completed = set(r.completed(now))
+    scheduled = set(r.scheduled())
+    removed = {i for i, x in enumerate(g.removed_nodes) if x}
+    removed_ops = {i for i in removed if i < N}
+    ctx.count("states_checked")
+    w = dict(w, history=list(r.history), removed=sorted(removed))
+    if not completed <= removed_ops:
+        ctx.violation("c17_completed_operation_not_removed", dict(w, missing=sorted(completed - removed_ops)))
+    if not removed_ops <= scheduled:
+        ctx.violation("c17_unscheduled_operation_removed", dict(w, wrong=sorted(removed_ops - scheduled)))
+    for node in g.nodes:
+        t = node.node_type.name
+        if node.node_id in removed and t == "MACHINE":
+            if any(x not in scheduled for x in range(N) if node.machine_id in r.op_machines[x]):
+                ctx.violation("c17_machine_node_removed_too_early", dict(w, machine=node.machine_id))
+        if node.node_id in removed and t == "JOB":
+            if any(x not in scheduled for x in r.job_ops[node.job_id]):
+                ctx.violation("c17_job_node_removed_too_early", dict(w, job=node.job_id))
+    if not prev_removed <= removed:
+        ctx.violation("c17_node_unremoved", dict(w, back=sorted(prev_removed - removed)))
+    present = set(g.graph.nodes())
+    if present & removed or (present | removed) != set(range(len(g.nodes))):
+        ctx.violation("c17_removed_mask_disagrees_with_graph", dict(w, present=sorted(present)))
+    if any(u in removed or v in removed for u, v in g.graph.edges()):
+        ctx.violation("c17_edge_touches_removed_node", w)
+    return removed
+
+
+def run_multi_env(ctx, case):
+    from job_shop_lib.dispatching import DispatcherObserverConfig
+    from job_shop_lib.generation import GeneralInstanceGenerator, InstanceGenerator
+    from job_shop_lib.reinforcement_learning import MultiJobShopGraphEnv
+    from ..ref import Ref
+    from .c16 import builders
+    rng = random.Random(case["seed"])
+    feats = [DispatcherObserverConfig("is_ready")]
+
+    def gen_(seed):
+        return GeneralInstanceGenerator(num_jobs=(2, 3), num_machines=(2, 3), duration_range=(1, 6),
+                                        seed=seed)
+    # an earlier environment of another kind in the same process
+    env0 = MultiJobShopGraphEnv(gen_(case["seed"] % 1000), feats,
+                                graph_initializer=builders()[case["first_builder"]])
+    env0.reset()
+    if case["cycling_generator"]:
+        source = gen_(case["seed"] % 977 + 1)
+        pool = [source.generate(num_jobs=3, num_machines=3) for _ in range(2)]
+
+        class Cycling(InstanceGenerator):
+            """hands out the instances of a fixed data set, again and again (the same objects)"""
+            def __init__(self):
+                super().__init__(num_jobs=(3, 3), num_machines=(3, 3), duration_range=(1, 6))
+                self.k = 0
+
+            def generate(self, num_jobs=None, num_machines=None):
+                self.k += 1
+                return pool[self.k % len(pool)]
+        g = Cycling()
+        ctx.count("multi_envs_on_a_cycling_generator")
+    else:
+        g = gen_(case["seed"] % 991 + 2)
+    env = MultiJobShopGraphEnv(g, feats, graph_initializer=builders()[case["builder"]],
+                               ready_operations_filter=None)
+    w0 = {"env": "multi", "builder": case["builder"], "first_builder": case["first_builder"],
+          "cycling_generator": case["cycling_generator"]}
+    for ep in range(4):
+        env.reset()
+        I = env.dispatcher.instance
+        r = Ref({"durations": [[op.duration for op in job] for job in I.jobs],
+                 "machines": [[list(op.machines) for op in job] for job in I.jobs]})
+        if any(env.job_shop_graph.removed_nodes):
+            ctx.violation("c17_nodes_removed_right_after_reset", dict(w0, episode=ep))
+            return
+        prev = set()
+        done = False
+        while not done:
+            op = rng.choice(env.dispatcher.available_operations()); m = rng.choice(op.machines)
+            _, _, done, _, _ = env.step((op.job_id, m))
+            r.apply(op.operation_id, m)
+            prev = judge_state(ctx, env.job_shop_graph, r, r.current_time(None), dict(w0, episode=ep), prev)
+        ctx.count("final_all_removed_checks")
+        gph = env.job_shop_graph
+        if all(any(mm in ms for ms in r.op_machines) for mm in range(r.num_machines)) and (
+                not all(gph.removed_nodes) or gph.graph.number_of_nodes() != 0):
+            ctx.violation("c17_nodes_left_at_completion",
+                          dict(w0, episode=ep, left=[repr(n) for n in gph.non_removed_nodes()]))
+            return
+    ctx.count("multi_env_runs")
+    ctx.note_case(case, True, fingerprint="multi:%s" % case["seed"])
+
+
 def run_case(ctx, case):
+    if case.get("kind") == "multi_env":
+        return run_multi_env(ctx, case)
     from job_shop_lib.graphs.graph_updaters import ResidualGraphUpdater
     from .c16 import builders
 
